@@ -1958,6 +1958,46 @@ def unroll_new_literal_loops(trees, inv):
             if sum(1 for x in ast.walk(fn) if isinstance(x, ast.For)) <= toks.count("For"):
                 continue
             done = 0
+            # a new local that is nothing but a list of other locals (`blank = [typ, parent]`, `blank += [pwr]`), read only as the sequence
+            # of `for` loops that come after its last binding, none of the listed names being re-bound from its first binding on
+            name_lists = {}
+            new_l = genuinely_new_locals(fn, mod, q, inv) or set()
+            for nm in new_l:
+                binds_ = [x for x in ast.walk(fn) if (isinstance(x, ast.Assign) and len(x.targets) == 1 and isinstance(x.targets[0], ast.Name) and x.targets[0].id == nm)
+                          or (isinstance(x, ast.AugAssign) and isinstance(x.target, ast.Name) and x.target.id == nm and isinstance(x.op, ast.Add))]
+                stores_ = [y for y in ast.walk(fn) if isinstance(y, ast.Name) and y.id == nm and isinstance(y.ctx, (ast.Store, ast.Del))]
+                loads_ = [y for y in ast.walk(fn) if isinstance(y, ast.Name) and y.id == nm and isinstance(y.ctx, ast.Load)]
+                uses_ = [x for x in ast.walk(fn) if isinstance(x, ast.For) and isinstance(x.iter, ast.Name) and x.iter.id == nm]
+                if not binds_ or len(binds_) != len(stores_) or len(uses_) != len(loads_) or not uses_:
+                    continue
+                if not isinstance(binds_[0], ast.Assign) or not all(isinstance(b.value, (ast.List, ast.Tuple)) and all(isinstance(e, ast.Name) for e in b.value.elts) for b in binds_):
+                    continue
+                binds_.sort(key=lambda b: b.lineno)
+                if any(isinstance(b, ast.Assign) for b in binds_[1:]):
+                    continue
+                # all bindings in one block, in a row of that block's statements; every use after the last binding
+                blk_of = None
+                for bo in ast.walk(fn):
+                    for fld_ in ("body", "orelse", "finalbody"):
+                        bl = getattr(bo, fld_, None)
+                        if isinstance(bl, list) and any(z is binds_[0] for z in bl):
+                            blk_of = bl
+                if blk_of is None or not all(any(z is b for z in blk_of) for b in binds_):
+                    continue
+                first, last = binds_[0].lineno, binds_[-1].lineno
+                if any(u.lineno <= last for u in uses_):
+                    continue
+                elts = [e for b in binds_ for e in b.value.elts]
+                names_ = {e.id for e in elts}
+                if len(names_) != len(elts):
+                    continue
+                until = max(getattr(u, "end_lineno", u.lineno) or u.lineno for u in uses_)
+                if any(isinstance(y, ast.Name) and y.id in names_ and isinstance(y.ctx, (ast.Store, ast.Del)) and first <= y.lineno <= until for y in ast.walk(fn)):
+                    continue
+                # the whole thing sits inside one enclosing loop body or none: a use in a later iteration of an outer loop sees the lists of
+                # that iteration only if the bindings are re-made there too (same block: checked above)
+                name_lists[nm] = ast.List(elts=elts, ctx=ast.Load())
+                name_lists[nm]._binds = binds_
             for _round in range(3):
                 hit = False
                 for blk_owner in list(ast.walk(fn)):
@@ -1972,7 +2012,12 @@ def unroll_new_literal_loops(trees, inv):
                             drop_binding = None
                             if isinstance(st, ast.For) and not st.orelse:
                                 it = st.iter
-                                if isinstance(it, (ast.Tuple, ast.List)) and 1 <= len(it.elts) <= 8 and not any(isinstance(e, ast.Starred) for e in it.elts):
+                                if isinstance(it, ast.Name) and it.id in name_lists:
+                                    it = name_lists[it.id]
+                                if isinstance(it, (ast.Tuple, ast.List)) and 1 <= len(it.elts) <= 24 and all(isinstance(e, ast.Name) for e in it.elts) \
+                                        and isinstance(st.iter, ast.Name) and not any(isinstance(e, ast.Starred) for e in it.elts):
+                                    rows = list(it.elts)
+                                elif isinstance(it, (ast.Tuple, ast.List)) and 1 <= len(it.elts) <= 8 and not any(isinstance(e, ast.Starred) for e in it.elts):
                                     rows = list(it.elts)
                                 elif isinstance(it, ast.Call) and isinstance(it.func, ast.Name) and it.func.id == "zip" and not it.keywords and len(it.args) >= 2 \
                                         and all(isinstance(a, (ast.Tuple, ast.List)) and not any(isinstance(e, ast.Starred) for e in a.elts) for a in it.args) \
@@ -1994,6 +2039,15 @@ def unroll_new_literal_loops(trees, inv):
                                 inner_ctl = any(isinstance(y, (ast.Break, ast.Continue)) for b in st.body for y in ast.walk(b))
                                 rebound = any(isinstance(y, ast.Name) and y.id in tv and isinstance(y.ctx, (ast.Store, ast.Del)) for b in st.body for y in ast.walk(b))
                                 inside = {id(y) for y in ast.walk(st)}
+                                # (another loop that binds the same variable itself reads its own binding, not this one's)
+                                for other in ast.walk(fn):
+                                    if isinstance(other, (ast.For, ast.comprehension)) and other is not st and \
+                                            {y.id for y in ast.walk(other.target) if isinstance(y, ast.Name)} >= set(tv):
+                                        inside |= {id(y) for y in ast.walk(other)}
+                                for other in ast.walk(fn):
+                                    if isinstance(other, (ast.ListComp, ast.SetComp, ast.DictComp, ast.GeneratorExp)) and any(
+                                            {y.id for y in ast.walk(g.target) if isinstance(y, ast.Name)} >= set(tv) for g in other.generators):
+                                        inside |= {id(y) for y in ast.walk(other)}
                                 read_after = any(isinstance(y, ast.Name) and y.id in tv and id(y) not in inside for y in ast.walk(fn))
                                 # every element must be usable by value: only names / constants / paths / empty displays are copied
                                 def simple(e):
@@ -2027,6 +2081,13 @@ def unroll_new_literal_loops(trees, inv):
                             i += 1
                 if not hit:
                     break
+            for nm, lst in name_lists.items():
+                if not any(isinstance(y, ast.Name) and y.id == nm and isinstance(y.ctx, ast.Load) for y in ast.walk(fn)):
+                    for bo in ast.walk(fn):
+                        for fld_ in ("body", "orelse", "finalbody"):
+                            bl = getattr(bo, fld_, None)
+                            if isinstance(bl, list) and any(any(z is b for b in lst._binds) for z in bl):
+                                bl[:] = [z for z in bl if not any(z is b for b in lst._binds)] or [ast.Pass()]
             if done:
                 ast.fix_missing_locations(fn)
                 notes.append("loops over literal sequences written out in %s: %d" % (q, done))
